@@ -183,6 +183,13 @@ func (bs *baseServer) Verify(ctx *types.HttpContext, upgrade bool) (*types.CodeM
 			server_log.Debug("bad request: unexpected transport without upgrade")
 			return BAD_REQUEST, map[string]any{"name": "TRANSPORT_MISMATCH", "transport": transport, "previousTransport": previousTransport}
 		}
+		// a plain HTTP request naming a websocket/webtransport session can never be
+		// answered by that transport (its OnRequest is a no-op): refuse it instead
+		// of leaving the handler waiting forever
+		if !upgrade && scoket.Transport().HandlesUpgrades() {
+			server_log.Debug("bad request: plain request for a session that only handles upgrades")
+			return BAD_REQUEST, map[string]any{"name": "TRANSPORT_MISMATCH", "transport": transport, "previousTransport": transport}
+		}
 	} else {
 		// handshake is GET only
 		if method := ctx.Method(); method != http.MethodGet {
